@@ -559,6 +559,7 @@ public:
 		catch (...)
 		{
 			pvDestroy();
+			mBuckets = nullptr;
 			throw;
 		}
 	}
@@ -607,6 +608,7 @@ public:
 		catch (...)
 		{
 			pvDestroy();
+			mBuckets = nullptr;
 			throw;
 		}
 	}
